@@ -25,7 +25,9 @@
 //                4 schnorrkel marker bit cleared 5 empty signature
 //     cut        pre-digest data: 0 as encoded 1 tag only 2 tag+index 3 tag+index+slot
 //                4 three trailing bytes appended 5 empty
-//     eq         SlotState.CheckEquivocation: 0 returns no proof, 1 returns an error
+//     eq         SlotState.CheckEquivocation: 0 returns no proof, 1 returns an error, 2 returns a
+//                proof that the (mock) runtime reports successfully, 3/4 returns a proof but
+//                the runtime's key ownership proof fails / is nil
 //   claim <allowed> <n> <c1> <c2> <epoch> <slot> <rseed> <kseed> <me>
 //     claimSlot with authority me's keypair; a produced pre-digest is put into a header, sealed
 //     as BlockBuilder.buildBlockSeal does and verified as above
@@ -52,19 +54,41 @@ import (
 
 	"github.com/ChainSafe/gossamer/dot/types"
 	vu "github.com/ChainSafe/gossamer/internal/verifutil"
+	"github.com/ChainSafe/gossamer/lib/babe/mocks"
 	"github.com/ChainSafe/gossamer/lib/common"
 	"github.com/ChainSafe/gossamer/lib/crypto/sr25519"
+	"github.com/ChainSafe/gossamer/lib/runtime"
 	"github.com/ChainSafe/gossamer/pkg/scale"
+	"go.uber.org/mock/gomock"
 )
+
+var c24T *testing.T
 
 type c24Block struct {
 	BlockState
 	parent  *types.Header
 	genesis common.Hash
+	eq      uint64
 }
 
 func (b *c24Block) GetHeader(common.Hash) (*types.Header, error) { return b.parent, nil }
 func (b *c24Block) GenesisHash() common.Hash                      { return b.genesis }
+func (b *c24Block) BestBlockHash() common.Hash                    { return b.genesis }
+func (b *c24Block) GetRuntime(common.Hash) (runtime.Instance, error) {
+	rt := mocks.NewMockInstance(gomock.NewController(c24T))
+	switch b.eq {
+	case 3:
+		rt.EXPECT().BabeGenerateKeyOwnershipProof(gomock.Any(), gomock.Any()).
+			Return(nil, errors.New("c24 stub: no proof")).AnyTimes()
+	case 4:
+		rt.EXPECT().BabeGenerateKeyOwnershipProof(gomock.Any(), gomock.Any()).Return(nil, nil).AnyTimes()
+	default:
+		rt.EXPECT().BabeGenerateKeyOwnershipProof(gomock.Any(), gomock.Any()).
+			Return(types.OpaqueKeyOwnershipProof{1, 2, 3}, nil).AnyTimes()
+	}
+	rt.EXPECT().BabeSubmitReportEquivocationUnsignedExtrinsic(gomock.Any(), gomock.Any()).Return(nil).AnyTimes()
+	return rt, nil
+}
 
 type c24Epoch struct {
 	EpochState
@@ -84,12 +108,15 @@ func (e *c24Epoch) GetConfigData(uint64, *types.Header) (*types.ConfigData, erro
 
 type c24Slot struct{ mode uint64 }
 
-func (s *c24Slot) CheckEquivocation(_, _ uint64, _ *types.Header, _ types.AuthorityID) (
+func (s *c24Slot) CheckEquivocation(_, slot uint64, h *types.Header, signer types.AuthorityID) (
 	*types.BabeEquivocationProof, error) {
-	if s.mode == 1 {
+	switch s.mode {
+	case 0:
+		return nil, nil
+	case 1:
 		return nil, errors.New("c24 stub: equivocation check failed")
 	}
-	return nil, nil
+	return &types.BabeEquivocationProof{Offender: signer, Slot: slot, FirstHeader: *h, SecondHeader: *h}, nil
 }
 
 type c24World struct {
@@ -133,7 +160,7 @@ func c24NewWorld(allowed, n, c1, c2, epoch, rseed, kseed, badkey uint64) *c24Wor
 
 func (w *c24World) verify(header *types.Header, eq uint64) error {
 	parent := types.NewEmptyHeader()
-	bs := &c24Block{parent: parent, genesis: parent.Hash()}
+	bs := &c24Block{parent: parent, genesis: parent.Hash(), eq: eq}
 	es := &c24Epoch{epoch: w.epoch, data: &types.EpochDataRaw{Authorities: w.auths, Randomness: w.rnd}, cfg: w.cfg}
 	vm := NewVerificationManager(bs, &c24Slot{mode: eq}, es)
 	return vm.VerifyBlock(header)
@@ -483,8 +510,64 @@ func c24Author(rseed, slot, n uint64) uint64 {
 	return uint64(a)
 }
 
+// c24Sweep enumerates (thorough tier) every combination of configuration, claim kind, claimed
+// index (the slot's author / another authority / out of range), VRF tampering, seal tampering
+// and digest layout, for 1..3 authorities.
+func c24Sweep(emit func(string)) {
+	ctr := uint64(0)
+	for allowed := uint64(0); allowed <= 2; allowed++ {
+		for n := uint64(1); n <= 3; n++ {
+			for tag := uint64(1); tag <= 3; tag++ {
+				for im := 0; im < 3; im++ {
+					vts := uint64(7)
+					if tag == 2 {
+						vts = 1
+					}
+					for vt := uint64(0); vt < vts; vt++ {
+						for st := uint64(0); st <= 5; st++ {
+							for shape := uint64(0); shape <= 7; shape++ {
+								if shape >= 2 && (vt != 0 || st != 0) {
+									continue
+								}
+								for cut := uint64(0); cut <= 5; cut++ {
+									if cut != 0 && (vt != 0 || st != 0 || shape != 0) {
+										continue
+									}
+									ctr++
+									rseed, kseed, slot := 1000+ctr, 77+ctr%5, ctr*7919
+									author := c24Author(rseed, slot, n)
+									idx := author
+									switch im {
+									case 1:
+										idx = (author + 1) % n
+									case 2:
+										idx = n
+									}
+									key := idx
+									if key > n {
+										key = n
+									}
+									c1, c2 := uint64(1), uint64(1)
+									if ctr%4 == 3 {
+										c2 = 1 << 40
+									}
+									emit(fmt.Sprintf("v %x %x %x %x %x %x %x %x %x %x %x %x %x %x %x %x %x %x", allowed, n, c1, c2,
+										ctr%9, slot, rseed, kseed, 0xff, shape, tag, idx, key, vt, key, st, cut, 0))
+								}
+							}
+						}
+					}
+				}
+			}
+		}
+	}
+}
+
 func c24Gen(r *vu.RNG, total int, emit func(string)) {
 	thresholds := [][2]uint64{{1, 1}, {1, 1}, {1, 4}, {1, 2}, {1, 1 << 40}, {3, 4}}
+	if vu.Thorough() {
+		c24Sweep(emit)
+	}
 	for i := 0; i < total; i++ {
 		n := uint64(1 + r.Intn(5))
 		allowed := uint64(r.Intn(3))
@@ -524,6 +607,12 @@ func c24Gen(r *vu.RNG, total int, emit func(string)) {
 		var badkey, shape, vrftamper, sealtamper, cut, eq uint64 = 0xff, 0, 0, 0, 0, 0
 		if r.Chance(1, 3) {
 			shape = 1
+		}
+		if r.Chance(1, 8) && n >= 2 && (allowed == 1 || allowed == 2) {
+			// a secondary claim of the allowed kind by an authority that is not the slot's author
+			tag = allowed + 1
+			idx = (author + 1 + uint64(r.Intn(int(n)-1))) % n
+			vrfkey, sealkey = idx, idx
 		}
 		for k := r.Intn(3); k > 0 && r.Chance(3, 4); k-- {
 			switch r.Intn(12) {
@@ -565,7 +654,7 @@ func c24Gen(r *vu.RNG, total int, emit func(string)) {
 					badkey = idx
 				}
 			case 10:
-				eq = 1
+				eq = uint64(1 + r.Intn(4))
 			case 11: // the other secondary kind than the configuration allows
 				switch allowed {
 				case 1:
@@ -577,9 +666,6 @@ func c24Gen(r *vu.RNG, total int, emit func(string)) {
 				}
 				idx, vrfkey, sealkey = author, author, author
 			}
-		}
-		if vrfkey > n || (vrfkey == n && false) {
-			vrfkey = n
 		}
 		if vrfkey >= uint64(int(n)+1) {
 			vrfkey = n
@@ -593,5 +679,6 @@ func c24Gen(r *vu.RNG, total int, emit func(string)) {
 }
 
 func TestVerifC24(t *testing.T) {
+	c24T = t
 	vu.Run(t, "C24", 1500, c24Gen, c24Run)
 }
